@@ -1,5 +1,6 @@
 import Goat.Model.Custom
 import GoatProofs.Lemmas.C07NoPanic
+import GoatProofs.Lemmas.C07NumericDate
 /-
 C07 over the custom-claims codec model of C10 (Goat/Model/Custom.lean, read-only here).
 
@@ -128,6 +129,14 @@ theorem no_panic_custom_decode_fresh_partial
     (fuel : Nat) (t : Ty) (w : Wire) : NoPanic (decode fuel t w) := by
   unfold decode
   exact no_panic_custom_decode_partial hnd hwalk fuel t _ w
+
+/-- FULL STATEMENT (kept): no hypothesis.  Proved: DecodeCustom never panics provided the index
+    paths of `typeFields` are valid for the destination type (`hwalk`, input independent); the
+    NumericDate hypothesis is discharged by C07.ND.decode_noPanic. -/
+theorem no_panic_custom_decode_of_walk
+    (hwalk : ∀ (t : Ty) (f : FlatField) (sv : Val), f ∈ typeFields t → (walkGet true f.index t true sv).NoPanic)
+    (fuel : Nat) (t : Ty) (cur : Val) (w : Wire) : NoPanic (decodeInto fuel t cur w) :=
+  no_panic_custom_decode_partial ND.decode_noPanic hwalk fuel t cur w
 
 /-- without any hypothesis: destinations that are neither structs nor time never reach the two
     hypotheses — e.g. any JSON value into `any`, `string`, `[]byte`, `map[string]any` -/
